@@ -192,6 +192,10 @@ def step(K, obj, model, op):
             call = lambda: obj.without_k(tgt, **kw)
             if stored is not None:
                 del new_model[op["key"]]
+    if op.get("noif"):
+        # `_if=False`: nothing happens whatever else is handed over (no lookup, no function called)
+        kw["_if"] = False
+        new_model, expect_err, seen_expected = dict(model), False, []
     problems = []
     try:
         res, err = call(), None
@@ -231,6 +235,15 @@ def run_chain(chain):
             continue
         if expect_err:
             return dict(where, what="missing target not reported", observed=content(res))
+        if op.get("noif"):
+            if content(res) != before or content(obj) != before:
+                return dict(where, what="a call with _if=False changed the container", observed=content(res))
+            if problems:
+                return dict(where, what=problems[0])
+            if op["inplace"] and res is not obj:
+                return dict(where, what="in-place call did not return the receiver")
+            obj = res
+            continue
         want = sorted(new_model.values())
         got = content(res)
         if got != want:
@@ -259,7 +272,7 @@ def gen_op(rng, present):
     """present: keys currently expected in the container (targets are biased towards them)"""
     kind = rng.choice(["with", "with", "update", "update", "update", "transform", "transform", "transform", "without"])
     key = rng.choice(present) if present and rng.random() < 0.7 else rng.choice(KEYS + ["q"])
-    op = {"kind": kind, "key": key, "inplace": rng.random() < 0.4}
+    op = {"kind": kind, "key": key, "inplace": rng.random() < 0.4, "noif": rng.random() < 0.06}
     kws = [{}, {"v": rng.choice([0, 2, 7])}, {"w": rng.choice(["", "x"])}, {"v": 4, "w": "x"}]
     if kind == "with":
         op["tform"] = rng.choice(["key", "key", "obj", "obj", "kwonly"])
